@@ -407,7 +407,7 @@ func (cc *checkCtx) report() int {
 	cnt := 0
 	for _, o := range all {
 		if o.Status == "discharged" && cnt < 6 && (o.Kind == "ensures" || o.Kind == "loop" || cnt < 3) {
-			samples = append(samples, map[string]string{"obligation": o.Name, "what": o.Desc, "backend": o.Solver, "goal": trunc(o.Goal.String(), 400)})
+			samples = append(samples, map[string]string{"obligation": o.Name, "what": o.Desc, "backend": o.Solver, "goal": trunc(goalText(o), 400)})
 			cnt++
 		}
 	}
@@ -426,6 +426,9 @@ func (cc *checkCtx) report() int {
 		}
 	}
 	level := "proof"
+	if prop.Level != "" {
+		level = prop.Level
+	}
 	explanation := fmt.Sprintf("%d obligations generated from the current source of %d functions; %d discharged (%d syntactically, rest by SMT); %d inferred loop invariants proved inductive.", total, len(fnNames), discharged, trivial, autoInv)
 	if len(open) > 0 || total == 0 {
 		level = "other"
@@ -518,4 +521,11 @@ func cmdReplay(id, path string) int {
 	}
 	fmt.Println(string(b))
 	return 0
+}
+
+func goalText(o *Obligation) string {
+	if o.Goal == nil {
+		return o.Desc
+	}
+	return o.Goal.String()
 }
